@@ -82,3 +82,34 @@ class Cli:
                 if x.op[5:] not in out:
                     out.append(x.op[5:])
         return out
+
+
+DECODE_FUNCS = ["parsePEL", "parsePELSummary", "generatePH", "generateUH", "considerPEL", "prettyPrint"]
+
+
+class FullMain:
+    """main() interpreted with every CLI mode function inlined; the decoders stay opaque"""
+
+    def __init__(self, prog, opaque=None):
+        op = {PT + n for n in (DECODE_FUNCS if opaque is None else opaque) if prog.has_func(PT + n)}
+        self.I = I = Interpreter(prog, hooks={"opaque": op})
+        I.call(PT + "main", [])
+        pa = None
+        for e in I.events:
+            if e.kind == "methcall" and e.data[1] == "parse_args":
+                pa = Op("m:parse_args", e.data[0], *e.data[2])
+        if pa is None:
+            raise AnalysisError("main() does not call parse_args()")
+        self.map = {pa: ARGS}
+        self.events = I.events
+        self.facts = [(self.norm(p), self.norm(q)) for p, q in I.facts]
+
+    def norm(self, t):
+        return subst(t, self.map)
+
+    def arg(self, dest):
+        return Op("attr:" + dest, ARGS)
+
+    def fact_terms(self):
+        from .terms import or_
+        return [or_(not_(p), q) for p, q in self.facts]
